@@ -225,6 +225,35 @@ def run(prog: Program, chk: Check):
                 bad = (isinstance(it, ast.Call) and isinstance(it.func, ast.Name) and it.func.id in ("set", "frozenset")) or isinstance(it, (ast.Set, ast.SetComp)) \
                     or ".difference(" in t or ".union(" in t or ".intersection(" in t
                 N.decide(not bad, fkey(f, f"for ... in {t[:60]}"), where(f, lp if isinstance(lp, ast.For) else it), "iteration order is deterministic", f"{f.key} iterates an unordered set: {t}")
+    # ... and nowhere in the front end or the back ends is a set turned into a sequence (list({...}), tuple(set(x)), iteration,
+    # "".join(set)): the order of a set of strings changes from one interpreter start to the next (hash randomisation).
+    # sorted(...) over a set is fine.
+    def is_set_expr(e_):
+        if isinstance(e_, (ast.Set, ast.SetComp)):
+            return True
+        if isinstance(e_, ast.Call) and isinstance(e_.func, ast.Name) and e_.func.id in ("set", "frozenset"):
+            return True
+        if isinstance(e_, ast.Call) and isinstance(e_.func, ast.Attribute) and e_.func.attr in ("union", "difference", "intersection", "symmetric_difference"):
+            return True
+        if isinstance(e_, ast.BinOp) and isinstance(e_.op, (ast.BitOr, ast.BitAnd, ast.Sub, ast.BitXor)) and (is_set_expr(e_.left) or is_set_expr(e_.right)):
+            return True
+        return False
+
+    for modname in EMITTING_MODS:
+        m_ = prog.module(modname)
+        for f in m_.functions.values():
+            for n_ in walk_local(f.node):
+                seq = None
+                if isinstance(n_, ast.Call) and isinstance(n_.func, ast.Name) and n_.func.id in ("list", "tuple", "enumerate", "iter", "zip") and n_.args and is_set_expr(n_.args[0]):
+                    seq = n_
+                elif isinstance(n_, ast.Call) and isinstance(n_.func, ast.Attribute) and n_.func.attr in ("join", "extend") and n_.args and is_set_expr(n_.args[0]):
+                    seq = n_
+                elif modname not in BACKEND_MODS and isinstance(n_, (ast.For, ast.comprehension)) and is_set_expr(n_.iter):
+                    seq = n_.iter
+                elif isinstance(n_, ast.Starred) and is_set_expr(n_.value) and isinstance(getattr(n_, "_parent", None), (ast.List, ast.Tuple, ast.Call)):
+                    seq = n_
+                if seq is not None:
+                    N.bad(fkey(f, seq), where(f, seq), f"{f.qual} turns a set into a sequence (`{norm(seq)[:60]}`): its order differs between interpreter runs, and so does whatever is built from it")
     # generator / parser state must not survive from one compile to the next in the same process
     sms = shared_mutable_state(prog, EMITTING_MODS)
     for mn, owner, name, f, n in sms:
